@@ -19,6 +19,30 @@ prop("C09",
 KINDS = ("noise", "tones", "trend", "int", "explicit", "const")
 
 
+# a second record that is almost the first one: the same samples after a text export with 6 digits, a float32 round trip, a
+# channel with a gain mismatch of a few ppm -- or an equal copy (eps = 0).  r_xy then differs from r_xx by eps relative,
+# far above the comparison tolerance and far below what an independent draw would ever produce.
+near_y = st.fixed_dictionaries({"eps": st.sampled_from([0.0, 1e-6, 3e-6, 1e-7, 1e-5, "f32", "6g"]), "seed": gen.seeds})
+
+
+def _near(x, d):
+    x = np.asarray(x)
+    x = x.astype(complex if np.iscomplexobj(x) else float)
+    if d["eps"] == "f32":
+        return x.astype(np.complex64 if np.iscomplexobj(x) else np.float32).astype(x.dtype)
+    if d["eps"] == "6g":
+        f = lambda v: float("%.6g" % v)      # noqa: E731
+        return np.array([complex(f(v.real), f(v.imag)) for v in x]) if np.iscomplexobj(x) else np.array([f(v) for v in x])
+    rng = np.random.default_rng(d["seed"])
+    return x * (1.0 + d["eps"] * rng.uniform(-1, 1, len(x)))
+
+
+def _second(case, x):
+    if case.get("y_near"):
+        return _near(x, case["y_near"])
+    return gen.realise(case["y"]) if case["y"] else None
+
+
 @st.composite
 def corr_case(draw):
     cplx_x = draw(st.booleans())
@@ -34,8 +58,11 @@ def corr_case(draw):
     N = max(x["n"], y["n"] if y else 0)
     maxlags = draw(st.one_of(st.none(), st.integers(0, N - 1), st.sampled_from([0, 1, N - 1])))
     norms = ["biased", "unbiased", None] + (["coeff"] if y is None else [])
-    return {"x": x, "y": y, "maxlags": maxlags, "norm": draw(st.sampled_from(norms)),
-            "as_list": draw(st.booleans())}
+    out = {"x": x, "y": y, "maxlags": maxlags, "norm": draw(st.sampled_from(norms)),
+           "as_list": draw(st.booleans())}
+    if y is not None and y["n"] == x["n"] and draw(st.integers(0, 5)) == 5:
+        out["y_near"] = draw(near_y)
+    return out
 
 
 def _norm(s, k, N, norm, x):
@@ -52,7 +79,7 @@ def _norm(s, k, N, norm, x):
      doc="CORRELATION(x,y,maxlags,norm)[k] == sum_n x[n+k] conj(y[n]) / {N, N-k, 1, N rms(x)^2}, shorter input zero-padded")
 def c09_corr(ctx, case):
     x = gen.realise(case["x"])
-    y = gen.realise(case["y"]) if case["y"] else None
+    y = _second(case, x)
     N = max(len(x), len(y) if y is not None else 0)
     ml = case["maxlags"]
     norm = case["norm"]
@@ -68,6 +95,8 @@ def c09_corr(ctx, case):
     ctx.cls(gen.describe(case["x"]), "norm=%s" % norm,
             "auto" if y is None else ("equal" if len(y) == len(x) else ("x<y" if len(x) < len(y) else "x>y")))
     unequal = y is not None and len(y) != len(x)
+    if case.get("y_near"):
+        ctx.cls("y ~ x (%s)" % case["y_near"]["eps"])
     ctx.nontrivial(N >= 3 and L >= 1 and (np.iscomplexobj(x) or (y is not None and np.iscomplexobj(y))
                                           or unequal or norm != "biased"))
     ctx.check(len(got) == L + 1, "CORRELATION returned %d values for maxlags=%r (N=%d)" % (len(got), ml, N))
@@ -97,14 +126,17 @@ def xcorr_case(draw):
     N = x["n"]
     maxlags = draw(st.one_of(st.none(), st.integers(0, N - 1)))
     norms = ["biased", "unbiased", None] + (["coeff"] if auto else [])
-    return {"x": x, "y": y, "maxlags": maxlags, "norm": draw(st.sampled_from(norms))}
+    out = {"x": x, "y": y, "maxlags": maxlags, "norm": draw(st.sampled_from(norms))}
+    if y is not None and draw(st.integers(0, 3)) == 3:
+        out["y_near"] = draw(near_y)
+    return out
 
 
 @sub("C09.xcorr", strategy=xcorr_case(), quick=2000, shards_quick=2, thorough=30000,
      doc="xcorr: same values as the definition at k>=0, conj(r_yx[k]) at -k, lags == arange(-m, m+1)")
 def c09_xcorr(ctx, case):
     x = gen.realise(case["x"])
-    y = gen.realise(case["y"]) if case["y"] else None
+    y = _second(case, x)
     N = len(x)
     ml = case["maxlags"]
     norm = case["norm"]
@@ -122,7 +154,7 @@ def c09_xcorr(ctx, case):
             v = np.conj(_norm(ref.lagsum(yy, x, -k), -k, N, norm, x))
         exp.append(v)
     exp = np.array(exp)
-    ctx.cls(gen.describe(case["x"]), "norm=%s" % norm, "auto" if y is None else "cross")
+    ctx.cls(gen.describe(case["x"]), "norm=%s" % norm, "auto" if y is None else ("cross, y ~ x (%s)" % case["y_near"]["eps"] if case.get("y_near") else "cross"))
     ctx.nontrivial(N >= 3 and L >= 1 and (np.iscomplexobj(x) or (y is not None and np.iscomplexobj(y)) or norm != "biased"))
     ctx.check(list(lags) == list(range(-L, L + 1)), "xcorr lags are %s, expected -%d..%d" % (list(lags)[:4], L, L))
     ctx.check(len(got) == 2 * L + 1, "xcorr returned %d values for maxlags=%r" % (len(got), ml))
